@@ -229,8 +229,10 @@ VisitStmt(s, S) ==
       \* composite_from_walrus (:4669) inside a comprehension body: ignore_topmost_scope(), i.e. a plain
       \* FunctionScope.set in the enclosing function -- unconditionally
       [] s.k = "cwal"     -> SetName(S, s.v, s.id)
-      [] s.k \in {"while", "for"} ->
-            LET always == s.k = "while" /\ s.true
+      \* visit_While (:4272): always_entered = get_boolability(test) in (value_always_true, type_always_true) -- a non-empty
+      \* tuple / a non-zero int literal, NOT value_always_true_mutable (a currently non-empty list)
+      [] s.k \in {"while", "for", "whilev"} ->
+            LET always == (s.k = "while" /\ s.true) \/ (s.k = "whilev" /\ s.t \in AlwaysTrueTests)
                 \* with subscope() as body_scope:  with loop_scope() as loop_scopes:
                 B0 == [S EXCEPT !.cur = SubCopy(S.cur)]
                 M0 == [B0 EXCEPT !.cur = SubCopy(B0.cur), !.loops = Append(@, << >>)]
